@@ -46,9 +46,10 @@ pub struct GenOpts {
     pub render_nodes: bool,  // may pass graph nodes to format/join/print-like rendering
     pub node_globals: usize, // declare `global pn<i>` bound to pre-existing graph nodes (histories)
     pub scoped_mut: bool,    // allow `var`/`set` on scoped variables (strict only)
+    pub syn_sets: bool,      // sets holding several syntax nodes (their element ORDER follows node addresses: not comparable across parses)
 }
 impl GenOpts {
-    pub fn full() -> GenOpts { GenOpts { use_scoped: true, allow_scan: true, stdlib: true, globals: true, shorthands: true, inherit: true, max_depth: 3, max_stanzas: 5, render_nodes: false, node_globals: 0, scoped_mut: false } }
+    pub fn full() -> GenOpts { GenOpts { use_scoped: true, allow_scan: true, stdlib: true, globals: true, shorthands: true, inherit: true, max_depth: 3, max_stanzas: 5, render_nodes: false, node_globals: 0, scoped_mut: false, syn_sets: true } }
 }
 
 pub struct Gen<'a> {
@@ -141,7 +142,7 @@ impl<'a> Gen<'a> {
                 _ => { let v = self.fresh("c"); let l = self.expr(K::ListSyn, d, true); self.vars.push(vec![Var { name: v.clone(), kind: K::Syn, mutable: false, local: true }]); let e = self.expr(K::Int, d, local); self.vars.pop(); format!("[ {} for {} in {} ]", e, v, l) }
             },
             // set literals and set comprehensions: duplicates collapse, elements are ordered by value (mixed types rarely)
-            K::SetVal => match self.rng.below(if depth > 2 { 2 } else { 6 }) {
+            K::SetVal => match self.rng.below(if depth > 2 { 2 } else if self.opts.syn_sets { 6 } else { 4 }) {
                 4 => { let v = self.fresh("c"); let l = self.expr(K::ListSyn, d, true); format!("{{ {} for {} in {} }}", v, v, l) }
                 5 => { let cs = self.caps_of(K::Syn); if cs.len() >= 2 { format!("{{ x_ for x_ in [{}] }}", cs.iter().map(|c| format!("@{}", c)).collect::<Vec<_>>().join(", ")) } else { "{}".to_string() } }
                 0 => { let n = self.rng.below(4); format!("{{{}}}", (0..n).map(|_| self.expr(K::Int, d + 1, local)).collect::<Vec<_>>().join(", ")) }
@@ -303,6 +304,12 @@ pub fn gen_program(rng: &mut Rng, opts: &GenOpts) -> Program {
             let cnt = 2 + g.rng.below(6);
             if sh_free && g.rng.chance(60) { body.push_str("  let shv = 5\n"); }
             g.block(0, cnt, &mut body, 1);
+            // two captures of the same kind (nested nodes that may start at the same position): sets built from both
+            let syn: Vec<&(String, K, String)> = caps.iter().filter(|c| c.1 == K::Syn && !c.2.is_empty()).collect();
+            if opts.syn_sets && syn.len() >= 2 && syn[0].2 == syn[1].2 && g.rng.chance(70) {
+                let x = g.fresh("n");
+                body.push_str(&format!("  node {}\n  attr ({}) both = {{ x_ for x_ in [@{}, @{}] }}, lit = {{@{}, @{}}}, cnt = (length [ x_ for x_ in [@{}, @{}] ])\n", x, x, syn[0].0, syn[1].0, syn[0].0, syn[1].0, syn[0].0, syn[1].0));
+            }
             for c in &caps { body.push_str(&format!("  print @{}\n", c.0)); }
             new_scoped = g.new_scoped;
         }
